@@ -173,16 +173,26 @@ def exec_spec_loop(ex, s, env, seq, spec, ordinal):
     return
 
 
-def implied(ex, fact, timeout_ms=2000):
+def implied(ex, fact, timeout_ms=20000):
+    """pc |= fact ?  First from the quantifier-free facts only (fast, load-insensitive)."""
     from .zs import base_axioms
+
+    memo = {}
+
+    def has_quant(t):
+        i = t.get_id()
+        if i not in memo:
+            memo[i] = True if z3.is_quantifier(t) else any(has_quant(c) for c in t.children())
+        return memo[i]
     sv = z3.Solver()
     sv.set("timeout", timeout_ms)
-    for a in base_axioms():
-        sv.add(a)
     for h in ex.p.pc:
-        sv.add(h)
+        if not has_quant(h):
+            sv.add(h)
     sv.add(Not(fact))
-    return sv.check() == z3.unsat
+    if sv.check() == z3.unsat:
+        return True
+    return False
 
 
 def summarise(ex, s, env, seq):
